@@ -8,6 +8,8 @@ CONSTANTS
   PemCounts = {2, 3}
   MaxUiPages = 4
   EmptyAuthRefused = TRUE
+  UdSources = {"hex", "node"}
+  RootVias = {"file", "url"}
   Bug = "none"
 INVARIANT GenuineGathers
 CHECK_DEADLOCK FALSE
